@@ -176,8 +176,17 @@ func RandService(r *fw.Rand, id string) map[string]interface{} {
 	switch r.Intn(5) {
 	case 0, 1:
 		s["serviceEndpoint"] = fmt.Sprintf("https://svc%d.example.com/%d", r.Intn(50), r.Intn(1000))
+		if r.Chance(1, 4) {
+			// URIs as people write them, not as a normaliser would: capitals in scheme and host, escaped reserved characters and
+			// lower-case hex in the path, a default port, a trailing number sign - kept as given
+			s["serviceEndpoint"] = fw.Pick(r, []string{"https://Hub.Example.COM/Inbox", "HTTPS://svc.example.com/a", "https://example.com/files/a%2Fb", "https://example.com/%e2%82%ac", "https://example.com:443/x",
+				"https://example.com/x#", "https://example.com/a%20b%20c", "https://EXAMPLE.com/%7Euser"}) + fmt.Sprint(r.Intn(10))
+		}
 	case 2:
 		s["serviceEndpoint"] = []interface{}{fmt.Sprintf("https://a%d.example.com", r.Intn(50)), fmt.Sprintf("did:example:%d", r.Intn(1000))}
+		if r.Chance(1, 3) {
+			s["serviceEndpoint"] = []interface{}{fmt.Sprintf("https://Agent%d.Example.COM/In%%2Fbox", r.Intn(50)), fmt.Sprintf("did:example:%d", r.Intn(1000)), "HTTPS://b.example.com"}
+		}
 	case 3:
 		s["serviceEndpoint"] = map[string]interface{}{"uri": fmt.Sprintf("https://o%d.example.com", r.Intn(50)), "accept": []interface{}{"didcomm/v2"}}
 	case 4:
